@@ -20,7 +20,7 @@ PROFILE = {"C01": ["edit"], "C02": ["edit"], "C03": ["full", "fullbounds", "ctx"
 TIERS = {
     "quick": {"full": (0, 2), "fullbounds": (0, 3), "fullio": (0, 3), "fullcopy": (0, 2), "edit": (700, 14), "ctx": (300, 16), "ko": (700, 12), "copy": (600, 14), "analyze": (220, 9),
               "io": (300, 12), "palettes": 2},
-    "thorough": {"full": (0, 3), "fullbounds": (0, 4), "fullio": (0, 4), "fullcopy": (0, 3), "edit": (8000, 18), "ctx": (5000, 20),
+    "thorough": {"full": (0, 3), "fullbounds": (0, 4), "fullio": (0, 4), "fullcopy": (0, 3), "edit": (5000, 18), "ctx": (4000, 20),
                  "ko": (5000, 14), "copy": (6000, 16), "analyze": (1200, 10), "io": (3000, 12), "palettes": 3},
 }
 KO_ACTIONS = {"GeneKnockOut", "KnockOutModelGenes", "RxnKnockOut"}
